@@ -69,6 +69,26 @@ def unexpand(sp, fname):
     return out
 
 
+def unannotated_closures(gen, text):
+    """closures WITH parameters, in lines that come from /repo items under verification, that carry no annotation"""
+    ext_items = set(it['short'] for it in gen.items if it.get('external'))
+    out = []
+    lines = text.split('\n')
+    for i, l in enumerate(lines):
+        o = gen.linemap[i] if i < len(gen.linemap) else {}
+        if o.get('kind') != 'repo' or o.get('item') in ext_items or '(spec twin)' in (o.get('item') or ''):
+            continue
+        m = R.mask_source(l)
+        for mm in re.finditer(r'(?:(?<=[(,={;])|(?<=\bmove)|(?<=\breturn))\s*\|([^|]+)\|', m):
+            if re.match(r'\s*->', m[mm.end():]):
+                continue
+            before = m[:mm.start()].rstrip()
+            if before.endswith(('==', '>=', '<=', '!=', '=>', 'Ghost(')):       # comparisons / match arms / spec closures
+                continue
+            out.append('%s: %s' % (o.get('item') or '?', l.strip()[:80]))
+    return out
+
+
 def enclosing_fns(text):
     """line number (1-based) -> name of the enclosing fn in the generated file."""
     mask = R.mask_source(text)
@@ -144,6 +164,13 @@ def run_unit(unit, variant=None, scratch=None, rlimit=None, keep=False, extra_ar
     res.gen = gen
     res.gen_text = text
     res.trusted_scan = X.scan_trusted(text)
+    uc = unannotated_closures(gen, text)
+    if uc:
+        # an exec closure with parameters and no `-> (r: T) ensures ..` annotation is opaque to Verus: whatever is computed
+        # through it is unconstrained, so a proof that needs it fails for a reason that says nothing about the code
+        res.status = 'undecided'
+        res.undecided_reason = 'closure without a contract annotation in extracted code (its result would be unconstrained): ' + '; '.join(uc[:3])
+        return res
     own = scratch is None
     d = scratch or tempfile.mkdtemp(prefix='vf_%s_' % unit)
     fname = '%s_%s.rs' % (unit, variant.get('RC', 'x').lower())
